@@ -14,16 +14,21 @@ pub struct Episode {
 }
 
 /// Rough cost of validating an episode (used only to split traces into balanced chunks)
-pub fn weight(prop: &str, e: &Episode) -> usize {
+pub fn weight(prop: &str, e: &Episode, thorough: bool) -> usize {
     let base = e.ops.len() * (1 + (1usize << e.n) / 16);
     if prop == "C04" {
         let mut w = base;
         for op in &e.ops {
             if op["op"] == "canon" {
+                // beyond enumeration (quick: npn > 6, p > 7; thorough: npn > 7): walk check (cached per trace file)
+                // and orbit neighbourhood only
                 w += match (op["kind"].as_str().unwrap_or(""), e.n) {
-                    ("npn", n) if n >= 6 => 4000,
+                    ("npn", n) if n >= 8 => 300,
+                    ("npn", 7) => if thorough { 6000 } else { 300 },
+                    ("npn", 6) => 4000,
                     ("npn", 5) => 400,
-                    ("p", n) if n >= 7 => 1500,
+                    ("p", 8) => if thorough { 3000 } else { 300 },
+                    ("p", 7) => 1500,
                     ("p", 6) => 150,
                     (_, 8) => 1500,
                     (_, 7) => 600,
